@@ -60,6 +60,7 @@ type Violation struct {
 	Detail  string
 	Witness *Witness
 	Known   string
+	Sched   bool // found on a path with scheduling / environment decisions the native run cannot be forced into
 }
 
 func (ex *Exec) buildWitness(model map[string]ModelVal, outcome string) *Witness {
@@ -157,6 +158,9 @@ func (e *Engine) runPath(sol *Solver, fn *ssa.Function, prefix []Decision) (res 
 	res.Funcs = sortedKeys(ex.funcs)
 	res.NonReplayable = ex.nondetEnv > 0
 	res.Steps = ex.steps
+	for _, v := range ex.violations {
+		v.Sched = ex.nondetEnv > 0
+	}
 	res.Violations = ex.violations
 	res.KnownSeen = ex.knownSeen
 	if res.Outcome == "infeasible" {
@@ -173,7 +177,13 @@ func (e *Engine) runPath(sol *Solver, fn *ssa.Function, prefix []Decision) (res 
 	// witness of the whole path (for co-execution)
 	if res.Outcome == "completed" || res.Outcome == "stop" || res.Outcome == "panic" {
 		terms := ex.modelTerms()
-		r, model, _ := sol.Check(nil, terms)
+		var r SatResult
+		var model map[string]ModelVal
+		if ex.pcN == 0 && len(terms) == 0 {
+			r, model = Sat, map[string]ModelVal{} // nothing symbolic on this path
+		} else {
+			r, model, _ = sol.Check(nil, terms)
+		}
 		if r == Sat {
 			w := ex.buildWitness(model, res.Outcome)
 			w.Expect = ex.expectTrace(model)
